@@ -21,6 +21,7 @@ LEVEL_NOTE = ("Bounds: archives of <=3 members, directories of <=3 entries, comb
               "'member name = record id, ids distinct' is assumed symbolically and checked concretely on the bundled archives when "
               "they are present in the tree. The five kit registries' _load_entity tables are exercised by that concrete side "
               "condition only. Trusted: z3, CPython, symx models, the I/O stubs.")
+LEVEL_NOTE_EXTRA = 'Also: members arriving through a growing inner combined registry that is added again after it grew.'
 TECHNIQUE = "bounded symbolic execution of the real Python source (symx) with z3 over symbolic archive/directory listings (I/O stubbed); replay on the real stack"
 EXPLANATION = "registry code runs on symbolic listings: dict operations keyed by symbolic ids become solver-decided equality tests"
 ASSUMPTIONS = [
